@@ -474,12 +474,18 @@ def spellings(doc):
 
 def run_g(o: Outcome, cfgs):
     with ThreadPoolExecutor(len(cfgs)) as ex:
-        rs = list(ex.map(lambda c: tlc("Gen_Parser", c, workers=1, timeout=3000, coverage=(c == cfgs[0])), cfgs))
+        rs = list(ex.map(lambda c: tlc("Gen_Parser", c, workers=1, timeout=3000), cfgs))
     cases = []
     for cfg, r in zip(cfgs, rs):
         o.add_tlc(cfg + " (M: MachineOK on every sequence)", r)
         cases += [c for c in r.cases if c["doc"]]
-    o.extra["action_coverage"] = {k: list(v) for k, v in rs[0].coverage_actions().items()}
+    # (TLC's -coverage runs out of memory on this functional spec; the model has a single action
+    # "append one chunk", so coverage is reported per chunk / per node kind instead)
+    per_chunk = {}
+    for c in cases:
+        for ch in set(c["doc"]):
+            per_chunk[ch] = per_chunk.get(ch, 0) + 1
+    o.extra["action_coverage"] = {"Next(append chunk)": sum(r.distinct for r in rs), "sequences_containing_chunk": per_chunk}
     kinds = {}
     for c in cases:
         for k in set(re.findall(r'"kind": "(\w+)"', json.dumps(c["tree"]))):
